@@ -54,28 +54,32 @@ PLAN = {
         trusted_base=_TB_IT),
 }
 
-_TB_MD = ["pyvc encoder (A-ENC, audited)", "z3 / cvc5 (A-SMT)", "pydantic parse/dump and validators (A-PYD)",
-          "POSIX file semantics (A-FS), lexical paths (A-SYMLINK)", "hash libraries (A-HASH), file reads (A-IO)",
-          "tree induction lemma (A-LEMMA-TREE, stated)", "merge_shard_infos / DatasetWriting.write_config / write_multiprocessing: bounded stand-in (history sweeps), not proved"]
-_MD = ["A-ENC", "A-SMT", "A-PYD", "A-FS", "A-SYMLINK", "A-HASH", "A-IO", "A-STD", "A-TREE", "A-LEMMA-TREE"]
+_TB_MD = ["pyvc encoder (A-ENC)", "z3 / cvc5 (A-SMT)", "pydantic parse/dump and validators (A-PYD)",
+          "POSIX file semantics (A-FS), lexical paths (A-SYMLINK, A-PATHTOKEN; path axioms audited against pathlib every run)",
+          "hash libraries (A-HASH), file reads (A-IO)",
+          "tree summation and counting lemmas: machine-checked in Lean (lemmas/TreeExact.lean, lemmas/Count.lean), not trusted",
+          "DatasetWriting.write_multiprocessing (Pool / pickle plumbing): bounded stand-in with real worker processes, not proved",
+          "_DatasetFillerContext._get_new_shard: assumed contract (constructor glue), source pinned by hash",
+          "termination of the recursion in merge_shard_infos: not verified (partial correctness)"]
+_MD = ["A-ENC", "A-SMT", "A-PYD", "A-FS", "A-SYMLINK", "A-HASH", "A-IO", "A-STD", "A-LEMMA-TREE", "A-LEMMA-COUNT", "A-PATHTOKEN"]
 PLAN.update({
     "C01": dict(level="other", assumptions=["A-ENC", "A-SMT", "A-NP", "A-NPZ", "A-TF", "A-CODEC", "A-FB", "A-RUST", "A-READER"],
         explanation="proof part: sedpack's glue around the libraries: the codec tables pair every compression name with inverse functions; the FlatBuffers writer stores the little-endian C-order bytes of the safely cast value (byte-order branch table proved against an LE specification) and the reader decodes with the inverse composition; the npz writer buffers an independent copy per declared attribute; the TFRecord encoder checks names / shapes / dtype kinds. Not proved: the numeric behaviour of numpy / flatbuffers / TensorFlow / codecs (assumed algebra, audited by a bounded bit-pattern round-trip matrix over formats x compressions x dtypes x ranks x layouts x readers)",
         trusted_base=["pyvc encoder", "z3/cvc5", "numpy / flatbuffers / TensorFlow / codec behaviour (A-NP, A-NPZ, A-TF, A-CODEC, A-FB; audited, bounded)", "native reader (A-RUST)"]),
     "C04": dict(level="other", assumptions=_MD,
-        explanation="proof part: representation invariant (every list document on disk valid, locally exact, naming only complete files: DISK_OK; every ShardListInfo exact for its file: INFO_EXACT) proved to be preserved by Shard.write / Shard.close / close_shard / write_example / DatasetFiller.__exit__ / _update_infos / ShardsList.write_config / load_or_create for arbitrary prior state (induction step over sessions); counts = records accepted by the writer. Bounded stand-in (NOT proved): merge_shard_infos and DatasetWriting.write_config (grouping + recursion outside the engine's subset) are checked by fixed + random session histories with an independent audit of the whole tree",
+        explanation="proof part: representation invariant = (i) DISK_OK: every complete list document is valid, locally exact, names only complete files, children one directory below and named once; (ii) GINV: a ghost set of certified list files, each with every child entry exact for the child file (count, shard count, digests under the dataset's algorithms) and certified itself; (iii) every split entry of the description exact and certified. Proved for arbitrary prior state (induction step over sessions): preserved by Shard.write / Shard.close / close_shard / write_example / _update_infos, re-established by DatasetFiller.__exit__ -> DatasetWriting.write_config -> merge_shard_infos (grouping, recursion, children before parents, 171 + 77 obligations) and by Dataset.create; the recorded totals then equal the actual totals by the Lean lemma. Bounded stand-in (NOT proved): write_multiprocessing (worker processes), plus fixed + random session histories (incl. deferred / stale updates) with an independent audit of the whole tree",
         trusted_base=_TB_MD),
     "C05": dict(level="other", assumptions=_MD,
-        explanation="proof part (detection): check() returning normally implies: supplied description checksums match; for every split the list file and, recursively, EVERY child list has the recorded digests (SUBOK, defined by recursion over the finite tree); EVERY file info of EVERY shard of every split matches, with the dataset's configured algorithms (coverage obligations per loop); hash_checksums proved to feed each hash exactly the file prefix read. Acceptance after every history rests on C04's invariant (merge part bounded). Bounded: tamper matrix over all reachable files",
+        explanation="proof part (detection): check() returning normally implies: supplied description checksums match; for every split the list file and, recursively, EVERY child list has the recorded digests (SUBOK); EVERY file info of EVERY shard of every split matches, with the dataset's configured algorithms; hash_checksums proved to feed each hash exactly the file prefix read. Proof part (acceptance): after every session ending in DatasetFiller.__exit__ / DatasetWriting.write_config every split entry is exact for its list file and so is every child entry below it, with the dataset's algorithms (C04's invariant, merge_shard_infos proved). Not proved: that check()'s traversal accepts exactly when this invariant holds (detection and acceptance are stated over the same digests but the equivalence is not a VC); write_multiprocessing. Bounded: tamper matrix over all reachable files, histories",
         trusted_base=_TB_MD),
     "C06": dict(level="other", assumptions=_MD,
-        explanation="proof part: effect-order obligations on a ghost file system: safe_update_file opens only a fresh sibling name for writing, renames only a closed (complete) file into place, net effect = target complete with the new content; a list document is written only when every shard / child list it names is complete (LISTED_COMPLETE precondition of ShardsList.write_config, established by Shard.close before close_shard writes); writers' files complete at close. Not proved: tearing inside library writers (A-FS), merge / description order (bounded), power loss (outside the property). Bounded: directory snapshot after every file-system effect of continued sessions",
+        explanation="proof part: effect-order obligations on a ghost file system: safe_update_file opens only a fresh sibling name for writing, renames only a closed (complete) file into place, net effect = target complete with the new content; a list document is written only when every shard / child list it names is complete (LISTED_COMPLETE precondition of ShardsList.write_config, established by Shard.close before close_shard writes, and in merge_shard_infos by merging the children before the parent is written); DatasetWriting.write_config writes the description after all lists. Not proved: tearing inside library writers (A-FS), write_multiprocessing, power loss (outside the property). Bounded: directory snapshot after every file-system effect of continued sessions",
         trusted_base=_TB_MD),
     "C08": dict(level="other", assumptions=_MD,
-        explanation="proof part: a list already on disk is loaded and extended, never recreated (load_or_create / close_shard: new list = old list ++ [shard]); Dataset.create over an existing description raises with an unchanged effect counter and disk; untouched splits keep their entries. Bounded stand-in: the merge of sub-directory lists (merge_shard_infos) by session histories incl. reused / nested / prefix-named directories",
+        explanation="proof part: a list already on disk is loaded and extended, never recreated (load_or_create / close_shard: new list = old list ++ [shard]); merge_shard_infos re-reads every list it rewrites from disk, keeps its shard entries and all children that are not superseded by an update with the same path (distinctness invariant: the defect F2 is exactly a failing obligation of it); DatasetWriting.write_config leaves the entries of splits without an update untouched; Dataset.create over an existing description raises with an unchanged effect counter and disk. Not proved: a reachability statement 'every shard listed before is listed after' over the whole tree (flat invariants say each rewritten list keeps its own shard entries; the composition over the tree is by A-LEMMA-TREE-style induction, stated); write_multiprocessing. Bounded: session histories incl. reused / nested / prefix-named directories",
         trusted_base=_TB_MD),
     "C09": dict(level="other", assumptions=_MD + ["A-LEMMA-CONC"],
-        explanation="proof part: per-writer frames: a filler with auto_update_dataset=False never calls the dataset's write_config and leaves DatasetInfo.splits untouched; its lists live under its own relative path (validated SAFE); it hands back infos exact for the files it wrote. Not decided by contracts: OS process scheduling, pickling, the body of write_multiprocessing (comprehension / Pool plumbing outside the subset): bounded runs with real worker processes of skewed speeds",
+        explanation="proof part: per-writer frames: a filler with auto_update_dataset=False never calls the dataset's write_config and leaves DatasetInfo.splits untouched; a filler only touches files and certificates below the directories of the splits it writes (OTHER_SPLITS_KEPT); its lists live under its own relative path (validated SAFE); it hands back one valid info per list it wrote; merge_shard_infos merges any set of valid infos with distinct paths, whatever order they arrive in. Not decided by contracts: OS process scheduling, pickling, the body of write_multiprocessing (Pool plumbing outside the subset): bounded runs with real worker processes of skewed speeds",
         trusted_base=_TB_MD),
     "C10": dict(level="proof", assumptions=["A-ENC", "A-SMT", "A-PYD"],
         explanation="object invariant of the filler context (0 <= written = recorded count = records accepted <= examples_per_shard, open shard per split, an empty open shard carries no label) preserved by write_example on every normal and exceptional path; close_shard requires >= 1 example; a shard closed by write_example is full unless the label changed (call-site obligation); __exit__ closes exactly the shards with written > 0",
